@@ -3,6 +3,8 @@ import Glas.Gen.Parser
 import Glas.Lemmas.ItemsLocal
 import Glas.Lemmas.ItemsSeg
 import Glas.Lemmas.ItemsMain
+import Glas.Lemmas.TreeItems
+import Glas.Gen.Policy
 /-!
 # C03 — a syntax error inside one definition does not disturb the others: locality of items
 
@@ -121,7 +123,8 @@ theorem runMain_is_items (P : Prog) (f k : Nat)
     ∃ items, parseItems P f n toks n = some items ∧
       evKinds σ.events = some k :: (items.flatMap (fun o => evKinds o.events) ++ [some 0]) ∧
       σ.errs = items.flatMap (fun o => o.errs) :=
-  Glas.Lemmas.ItemsMain.runMain_items P f k hP n toks σ hr
+  let ⟨items, h1, h2, h3, _⟩ := Glas.Lemmas.ItemsMain.runMain_items P f k hP n toks σ hr
+  ⟨items, h1, h2, h3⟩
 
 /-- **C03 for the run itself.**  Under the hypotheses of `C03_conditional` (containment of the damage), every
 normally ending run of the parser over the damaged file `pre ++ vic' ++ post` consists of: the root's opening, the
@@ -149,6 +152,93 @@ theorem C03_module (P : Prog) (f k : Nat)
   simp only [Option.some.injEq] at h2
   subst h2
   exact ⟨hev, herr⟩
+
+/-! ## the same at the level of trees -/
+
+open Glas.Tree Glas.Lemmas.TreeItems in
+/-- the generated tree-builder policy opens the root with `start; eat(module docs)`, drops the root's closing event,
+flushes the trailing trivia and closes the root at the end -/
+theorem glas_policyShape :
+    glasPolicy.onOpen K_SOURCE_FILE = [.start, .eat is_module_doc] ∧ glasPolicy.popLast = true ∧
+    glasPolicy.finalFlush = some is_trivia ∧ glasPolicy.finalClose = true := ⟨rfl, rfl, rfl, rfl⟩
+
+open Glas.Tree Glas.Lemmas.TreeItems in
+/-- **the tree is built item by item**: for every normally ending run (any program with a well-shaped main, any policy
+of the shape above) the syntax tree is the root node with: the leading tokens the root's opening eats, then the forests
+of the items - each built from the item's own events by an EMPTY builder on the raw tokens the previous item left
+(`forests`) -, then the trailing tokens of the final flush -/
+theorem tree_is_items (P : Prog) (f k : Nat)
+    (hP : (P.procs[P.main]?).map (fun p => p.body) = some (Glas.Lemmas.Dsl.mainBody f k))
+    (π : Policy) (p0 pf : Kind → Bool)
+    (hopen : π.onOpen k = [.start, .eat p0]) (hpop : π.popLast = true) (hflush : π.finalFlush = some pf)
+    (hclose : π.finalClose = true)
+    (n : Nat) (toks : List Kind) (σ : St) (hr : runMain P n toks = .ok σ) (raw : List RawTok) :
+    ∃ items, parseItems P f n toks n = some items ∧
+      ∀ Fs r2, forests π (items.map (fun o => o.events)) (eatList p0 raw).2 = some (Fs, r2) →
+        buildTree π σ.events raw = .ok (.node k ((eatList p0 raw).1 ++ Fs ++ (eatList pf r2).1)) := by
+  obtain ⟨items, hit, _, _, hex⟩ := Glas.Lemmas.ItemsMain.runMain_items P f k hP n toks σ hr
+  refine ⟨items, hit, ?_⟩
+  intro Fs r2 hF
+  rw [← buildTree_eraseId, hex]
+  have hflat : items.flatMap (fun o => o.events.map eraseId) =
+      ((items.map (fun o => o.events)).map (fun E => E.map eraseId)).flatten := by
+    simp [List.flatMap, List.map_map, Function.comp_def]
+  rw [hflat]
+  exact buildTree_forests π k 0 true p0 pf hopen hpop hflush hclose _ raw r2 Fs
+    (by rw [forests_eraseId]; exact hF)
+
+open Glas.Tree Glas.Lemmas.TreeItems in
+/-- **C03 at the level of trees** (conditional, as `C03_module`): under containment of the damage, the tree of the damaged
+file is the root with - between the leading and trailing tokens - the forests built from the very events the items in
+front of the victim have in the UNDAMAGED file, then the victim's, then those built from the events of the items `post`
+parses into on its own; each forest is built by an empty builder on the raw tokens left by the one before -/
+theorem C03_tree (P : Prog) (f k : Nat)
+    (hP : (P.procs[P.main]?).map (fun p => p.body) = some (Glas.Lemmas.Dsl.mainBody f k))
+    (π : Policy) (p0 pf : Kind → Bool)
+    (hopen : π.onOpen k = [.start, .eat p0]) (hpop : π.popLast = true) (hflush : π.finalFlush = some pf)
+    (hclose : π.finalClose = true)
+    (n : Nat) (pre vic vic' post : List Kind) (k1 k2 k3 : Nat)
+    (ipre iv' ipost0 : List ItemOut)
+    (hhead : vic.take (progMaxNth P + 1) = vic'.take (progMaxNth P + 1))
+    (hlen : progMaxNth P + 1 ≤ vic.length) (hlen' : progMaxNth P + 1 ≤ vic'.length)
+    (hpre : parseSeg P f n (pre ++ vic ++ post) k1 0 pre.length = some ipre)
+    (hcontain : parseSeg P f n (pre ++ vic' ++ post) k2 pre.length (pre.length + vic'.length) = some iv')
+    (hpost : parseSeg P f n post k3 0 post.length = some ipost0)
+    (σ' : St) (hr : runMain P n (pre ++ vic' ++ post) = .ok σ') (raw : List RawTok)
+    (Fpre Fv Fpost : List Tree) (ra rb rc : List RawTok)
+    (h1 : forests π (ipre.map (fun o => o.events)) (eatList p0 raw).2 = some (Fpre, ra))
+    (h2 : forests π (iv'.map (fun o => o.events)) ra = some (Fv, rb))
+    (h3 : forests π (ipost0.map (fun o => o.events)) rb = some (Fpost, rc)) :
+    buildTree π σ'.events raw =
+      .ok (.node k ((eatList p0 raw).1 ++ (Fpre ++ Fv ++ Fpost) ++ (eatList pf rc).1)) := by
+  obtain ⟨items, hit, htree⟩ := tree_is_items P f k hP π p0 pf hopen hpop hflush hclose n _ σ' hr raw
+  have hc := (C03_conditional P f n pre vic vic' post k1 k2 k3 ipre iv' ipost0 hhead hlen hlen' hpre hcontain hpost).1
+  unfold parseItems at hit hc
+  have e1 := Glas.Lemmas.ItemsSeg.parseSeg_mono P f n _ _ _ _ _ hit (n + (k1 + k2 + k3)) (by omega)
+  have e2 := Glas.Lemmas.ItemsSeg.parseSeg_mono P f n _ _ _ _ _ hc (n + (k1 + k2 + k3)) (by omega)
+  rw [e1] at e2
+  simp only [Option.some.injEq] at e2
+  subst e2
+  apply htree
+  have hsh : (ipost0.map (fun o => o.shift (pre.length + vic'.length))).map (fun o => o.events) =
+      ipost0.map (fun o => o.events) := by
+    simp [List.map_map, Function.comp_def, ItemOut.shift]
+  rw [List.map_append, List.map_append, hsh]
+  exact forests_append π _ _ _ _ _ _ _ (forests_append π _ _ _ _ _ _ _ h1 h2) h3
+
+open Glas.Tree Glas.Lemmas.TreeItems in
+/-- non-vacuity of `tree_is_items` / `C03_tree` on the generated parser and policy: for the damaged file of the example
+(raw tokens = the tokens, no trivia) the item forests exist - three items, three top-level forests of one node each -/
+example :
+    let fa := [K_FN_KW, K_IDENT, K_L_PAREN, K_R_PAREN, K_L_BRACE, K_INTEGER, K_R_BRACE]
+    let vic' := [K_FN_KW, K_IDENT, K_L_PAREN, K_R_PAREN, K_L_BRACE, K_INTEGER, K_R_PAREN, K_COMMA, K_R_BRACE]
+    let raw : List RawTok := (fa ++ vic' ++ fa).map (fun k => (k, ['x']))
+    (match parseItems glasProg I_statement 4000 (fa ++ vic' ++ fa) 5 with
+     | some items =>
+       (match forests glasPolicy (items.map (fun o => o.events)) (eatList is_module_doc raw).2 with
+        | some (Fs, r2) => decide (Fs.length = 3) && r2.isEmpty
+        | none => false)
+     | none => false) = true := by decide +kernel
 
 /-- non-vacuity: the run over the damaged file of the example above ends normally, and its fourteen node events
 and two errors are those of the three items -/
